@@ -40,6 +40,21 @@ def decide_kani(prop, kh_dir, hs, kr, tier):
     if kr["build_failed"]:
         undecided.append("engine K: harness crate did not build:\n" + kr["raw"][-3000:])
         return violations, undecided, units
+    # counterexamples of failing harnesses are fetched up front, a few at a time (each is a separate single-harness Kani run)
+    prefetch = {}
+    need = []
+    for h in hs:
+        d = kr["results"].get(h.path)
+        if d and d["status"] == "failed" and not d.get("playback") and any(
+                "unwinding assertion" not in fc["desc"] and not (h.expect_fail and re.search(h.expect_fail, fc["desc"] + " in " + fc["func"]))
+                for fc in d["failed_checks"]):
+            need.append(h)
+    if need:
+        from concurrent.futures import ThreadPoolExecutor
+        log("[K] %d failing harness(es); fetching counterexamples (%d at a time)" % (len(need), min(4, len(need))))
+        with ThreadPoolExecutor(max_workers=4) as ex:
+            for h, t in zip(need, ex.map(lambda hh: K.playback(kh_dir, hh), need)):
+                prefetch[h.path] = t
     for h in hs:
         d = kr["results"].get(h.path)
         u = dict(engine="kani", harness=h.name, kind=h.kind, bound=h.bound, tier=h.tier)
@@ -79,7 +94,7 @@ def decide_kani(prop, kh_dir, hs, kr, tier):
             continue
         # genuine failures: fetch a counterexample and replay it natively
         log("[K] %s: %d failing check(s); fetching counterexample" % (h.name, len(bad)))
-        tests = d.get("playback") or K.playback(kh_dir, h)
+        tests = d.get("playback") or prefetch.get(h.path) or K.playback(kh_dir, h)
         if replay_exe is None:
             ok, exe, blog = K.build_replay(kh_dir)
             replay_exe = exe if ok else False
@@ -275,7 +290,10 @@ def build_evidence(prop, cfg, tier, seed, units, kres, vres, violations, known_h
         bounded_checks_not_counted_as_proved=b_checks,
         unchecked=cfg.get("unchecked", []),
         vacuity=dict(covers_satisfied=sum(u.get("covers_sat", 0) for u in k_units), covers_total=sum(u.get("covers_total", 0) for u in k_units),
-                     verus_probes=vres.get("probes") if vres else None),
+                     verus_probes=(dict(inserted=sum((u.get("vacuity") or {}).get("probes", 0) for u in usum),
+                                        failed_as_required=sum((u.get("vacuity") or {}).get("failed_as_required", 0) for u in usum),
+                                        rule="`assert(false)` spliced after the preconditions of every extracted function in a second Verus run; every probe must fail")
+                                   if usum else None)),
         verus_units=usum,
         assumption_scan=(vres or {}).get("assumption_scan", []),
         undecided=undecided[:10],
